@@ -30,11 +30,24 @@ pub enum Kind {
     TeAndCl(u64),
     /// POST with `transfer-encoding: gzip`, `transfer-encoding: chunked` on two lines and `content-length: n`
     TeTwoLinesAndCl(u64),
+    /// POST with `Expect: 100-continue` (chunked by default): the body state is reached through Await100, with the interim
+    /// 100 seen or after giving up waiting (Flow only)
+    ViaAwait100 { saw_100: bool },
+    /// PUT with `Expect: 100-continue` and `content-length: n`, through Await100 (Flow only)
+    SizedViaAwait100(u64, bool),
+    /// DELETE whose `content-length: n` is added with `Flow::header()` before or after `send_body_despite_method()` (Flow only)
+    DespiteSized(u64, bool),
+    /// GET whose `transfer-encoding: chunked` is added with `Flow::header()` before `send_body_despite_method()` (Flow only)
+    DespiteChunkedHeaderFirst,
 }
 
 impl Kind {
     pub fn is_chunked(self) -> bool {
-        !matches!(self, Kind::Sized(_) | Kind::SizedAndHost(_))
+        !matches!(self, Kind::Sized(_) | Kind::SizedAndHost(_) | Kind::SizedViaAwait100(..) | Kind::DespiteSized(..))
+    }
+
+    pub fn flow_only(self) -> bool {
+        matches!(self, Kind::DespiteGet | Kind::ViaAwait100 { .. } | Kind::SizedViaAwait100(..) | Kind::DespiteSized(..) | Kind::DespiteChunkedHeaderFirst)
     }
 }
 
@@ -92,26 +105,59 @@ impl Sender {
                 .header("transfer-encoding", "gzip")
                 .header("content-length", n.to_string())
                 .header("transfer-encoding", "chunked"),
+            Kind::ViaAwait100 { .. } => b.method(Method::POST).header("expect", "100-continue"),
+            Kind::SizedViaAwait100(n, _) => b.method(Method::PUT).header("Expect", "100-continue").header("content-length", n.to_string()),
+            Kind::DespiteSized(..) => b.method(Method::DELETE),
+            Kind::DespiteChunkedHeaderFirst => b.method(Method::GET),
         };
         let req = b.body(()).map_err(|e| e.to_string())?;
         let mut head = [0u8; 512];
         match api {
             Api::Flow => {
                 let mut f = Flow::new(req).map_err(|e| format!("Flow::new: {:?}", e))?;
-                if kind == Kind::DespiteGet {
-                    f.send_body_despite_method();
+                match kind {
+                    Kind::DespiteGet => f.send_body_despite_method(),
+                    Kind::DespiteSized(n, header_first) => {
+                        // the two Prepare-state calls commute
+                        if header_first {
+                            f.header("content-length", n.to_string()).map_err(|e| format!("Flow::header: {:?}", e))?;
+                            f.send_body_despite_method();
+                        } else {
+                            f.send_body_despite_method();
+                            f.header("content-length", n.to_string()).map_err(|e| format!("Flow::header: {:?}", e))?;
+                        }
+                    }
+                    Kind::DespiteChunkedHeaderFirst => {
+                        f.header("transfer-encoding", "chunked").map_err(|e| format!("Flow::header: {:?}", e))?;
+                        f.send_body_despite_method();
+                    }
+                    _ => {}
                 }
                 let mut f = f.proceed();
                 f.write(&mut head).map_err(|e| format!("head write: {:?}", e))?;
                 match f.proceed().map_err(|e| format!("SendRequest::proceed: {:?}", e))? {
                     Some(SendRequestResult::SendBody(f)) => Ok(Sender::Flow(f)),
+                    Some(SendRequestResult::Await100(mut a)) => {
+                        let saw = matches!(kind, Kind::ViaAwait100 { saw_100: true } | Kind::SizedViaAwait100(_, true));
+                        if saw {
+                            let interim = b"HTTP/1.1 100 Continue\r\n\r\n";
+                            let n = a.try_read_100(interim).map_err(|e| format!("try_read_100: {:?}", e))?;
+                            if n != interim.len() {
+                                return Err(format!("interim 100: {} of {} bytes consumed", n, interim.len()));
+                            }
+                        }
+                        match a.proceed().map_err(|e| format!("Await100::proceed: {:?}", e))? {
+                            ureq_proto::client::flow::Await100Result::SendBody(f) => Ok(Sender::Flow(f)),
+                            _ => Err("expected SendBody after Await100".into()),
+                        }
+                    }
                     Some(_) => Err("expected SendBody after the head".into()),
                     None => Err("head not complete after an ample write".into()),
                 }
             }
             Api::Call => {
-                if kind == Kind::DespiteGet {
-                    return Err("despite-method is a Flow feature".into());
+                if kind.flow_only() {
+                    return Err("despite-method and Await100 are Flow features".into());
                 }
                 let mut c = Call::with_body(req).map_err(|e| format!("Call::with_body: {:?}", e))?;
                 let (i, _o) = c.write(&[], &mut head).map_err(|e| format!("head write: {:?}", e))?;
